@@ -270,6 +270,13 @@ class Lifecycle:
         self.handlers["collapse.then"] = Handler(self, m, f"Job.collapse.{ok_name}", self.collapse_handlers[ok_name], "self", sched_var_ok)
         self.handlers["collapse.fail"] = Handler(self, m, f"Job.collapse.{fail_name}", self.collapse_handlers[fail_name], "self", sched_var_fail)
 
+        # constant assignments to the job made by Job.collapse itself, before the twin settles
+        self.collapse_prelude = []
+        for st in col.body:
+            if isinstance(st, ast.Assign) and len(st.targets) == 1 and isinstance(st.targets[0], ast.Attribute) and isinstance(st.targets[0].value, ast.Name) and st.targets[0].value.id == "self":
+                val = st.value.value if isinstance(st.value, ast.Constant) else "?"
+                self.collapse_prelude.append(("set", "job." + st.targets[0].attr, val))
+
         # wrappers: method -> handler it forwards to through the events queue
         self.wrappers: dict[str, str] = {}
         sched_cls = m.cls("Scheduler")
@@ -519,6 +526,9 @@ class Lifecycle:
         def step(hkey: str, state: dict, trace: list, visited: frozenset):
             h = self.handlers[hkey]
             state = {k: v for k, v in state.items() if not k.startswith("local.")}
+            if hkey.startswith("collapse."):
+                for _, atom, val in self.collapse_prelude:
+                    state[atom] = val
             for ps in h.paths():
                 st = dict(state)
                 notes = []
